@@ -6,6 +6,27 @@ import gen
 import orc
 
 
+D16_SPEC = {'n_items': [['b', 4], ['c', 0]], 'model': {'kind': 'kingman'},
+            'pop_sizes': {'b': {'0.0': 2.0, '3.875': 65536.0}, 'c': {'0.0': 16.0, '3.875': 16384.0}},
+            'migration_rates': {'b>c': {'0.0': 0.5, '3.875': 0.125}, 'c>b': {'0.0': 0.5, '3.875': 0.5}}}
+
+
+def d16_key(case, f):
+    """the known finding D16: THIS configuration, first moment of the total branch length, deviation below 1e-8 relative"""
+    if gen.spec_key(case['spec']) != gen.spec_key(D16_SPEC) or not str(f.get('statistic', '')).startswith('total_branch_length'):
+        return None
+    if f['what'] == 'moment of order 1 does not scale by c^1':
+        x, y = f['expected'], f['rescaled']
+    elif f['what'].startswith('mean asked after the distribution function'):
+        x, y = f['original_after_cdf'] * f['c'], f['rescaled_after_cdf']
+        if abs(f['original_after_cdf'] - f['original_fresh']) > 1e-12 * abs(f['original_fresh']) or \
+                abs(f['rescaled_after_cdf'] - f['rescaled_fresh']) > 1e-12 * abs(f['rescaled_fresh']):
+            return None          # a history effect is NOT the known finding
+    else:
+        return None
+    return 'D16-rescaling-accuracy-two-deme-size-jump' if abs(x - y) <= 1e-8 * abs(x) else None
+
+
 def run(res, replay=None):
     # structural tie of the searches on the distribution function (_update, _cum, quantile, _get_absorption_time, t_max): translate the CURRENT source and re-check proofs/GenSearchEquiv.v
     import translate_step; (res.proof is not None) and translate_step.run(res.proof, pid=res.pid, tie='search')
@@ -69,7 +90,11 @@ def run(res, replay=None):
         for n0, n1, t1 in ((4.0, 0.25, '1.0'), (0.5, 8.0, '0.5')):
             cases.append({'spec': {'n_items': [['a', 3]], 'model': {'kind': 'kingman'}, 'pop_sizes': {'a': {'0.0': n0, t1: n1}}},
                           'c': 2.0 ** 3, 'regularize_check': False})
-    results = orc.run_oracle(res, 'scaling', cases)
+    # deterministic probe of the known finding D16 (float accuracy of the default pipeline on one two-deme configuration with a
+    # 2^15-fold size increase: the law holds to about 4e-9 only); identified by this exact configuration and statistic
+    if not replay:
+        cases.append({'spec': D16_SPEC, 'c': 4.0, 'regularize_check': False})
+    results = orc.run_oracle(res, 'scaling', cases, finding_key=d16_key)
     res.extra['input_distribution'] = {
         'c': sorted({c['c'] for c in cases}),
         'skipped_because_warning': sum(1 for _, r in results if isinstance(r.get('info'), dict) and 'skipped' in r['info']),
